@@ -26,6 +26,9 @@ OPTIONS = {
     'sprops': ", {{ 'props': {{ u: Number }} }}", 'sname': ", {{ 'name': 'User' }}", 'short': ', {{ props, name }}', 'method': ', {{ props() {{ return {{}} }} }}', 'getter': ', {{ get name() {{ return "g" }} }}',
     'other': ', {{ inheritAttrs: false }}', 'spread1': ', {{ ...base }}', 'spread2': ", {{ ...base, props: {{ u: Number }} }}", 'spread3': ", {{ props: {{ u: Number }}, ...base }}",
     'spread4': ", {{ ...base, name: 'User' }}", 'ident': ', base', 'call': ', mk()', 'argspread': ', ...rest', 'computed': ", {{ ['props']: {{ u: Number }} }}", 'third': ", {{ name: 'User' }}, 3",
+    'asconst': ", {{ name: 'User', inheritAttrs: false }} as const", 'paren': ", ({{ props: {{ u: Number }}, emits: ['u'] }})", 'sat': ", {{ name: 'User' }} satisfies any",
+    'asany': ", {{ emits: ['u'] }} as any", 'parenas': ", ({{ props: {{ u: Number }} }} as const)", 'asother': ', {{ inheritAttrs: false }} as const', 'asident': ', base as any',
+    'nonnull': ", {{ name: 'User' }}!", 'parenspread': ", ({{ ...base, name: 'User' }})",
 }
 DECL = {'const': 'const Comp = @;', 'let': 'let Comp = @;', 'export': 'export const Comp = @;', 'default': 'export default @;', 'assign': 'let Comp; Comp = @;', 'stmt': '@;',
         'shadow': 'function f(defineComponent: any) {{ const Comp = @; return Comp }}', 'inner': 'function f() {{ const Comp = @; return Comp }}', 'destr': 'const {{ Comp }} = @;',
@@ -81,11 +84,35 @@ def vue_define_component_binding(ctx, program):
     return None
 
 
+WRAPPERS = ('Paren', 'TsAs', 'TsConstAssertion', 'TsSatisfies', 'TsNonNull', 'TsTypeAssertion')
+
+
+def unwrap(e):
+    """parentheses and type annotations evaluate to the expression they hold"""
+    e = denote.E(e)
+    while isinstance(e, Adt) and e.ty == 'Expr' and e.variant in WRAPPERS:
+        e = denote.E(e.fields[0].get('expr'))
+    return e
+
+
+def flat_entries(obj):
+    """entries of an object literal; `...{ k: v }` of a literal without accessors contributes its entries in place"""
+    out = []
+    for en in denote.lit_entries(obj):
+        inner = unwrap(en[1]) if en[0] == 'spread' else None
+        if inner is not None and denote.is_expr(inner, 'Object'):
+            sub = flat_entries(inner.fields[0])
+            if all(not (x[0] == 'kv' and isinstance(x[2], tuple) and x[2][0] in ('getter', 'setter')) for x in sub):
+                out.extend(sub); continue
+        out.append(('spread', inner) if inner is not None else en)
+    return out
+
+
 def options_groups(arg):
     """second argument -> [Group]"""
-    e = denote.E(arg)
+    e = unwrap(arg)
     if denote.is_expr(e, 'Object'):
-        return [denote.Group('lit', denote.lit_entries(e.fields[0]))]
+        return [denote.Group('lit', flat_entries(e.fields[0]))]
     return [denote.Group('spread', e)]
 
 
@@ -155,7 +182,7 @@ def jobs(tier):
                 for d in (['const'] if imp not in ('vue',) else list(DECL)):
                     if d == 'firstspread' and op not in ('none', 'name'):
                         continue
-                    if tier == 'quick' and imp == 'vue' and d not in ('const', 'default', 'assign', 'shadow', 'firstspread', 'stmt') and op not in ('none', 'name', 'spread2'):
+                    if tier == 'quick' and imp == 'vue' and d not in ('const', 'default', 'assign', 'shadow', 'firstspread', 'stmt') and op not in ('none', 'name', 'spread2', 'asconst', 'paren'):
                         continue
                     out.append({'import': imp, 'setup': st, 'options': op, 'decl': d})
     for n in ([3] if tier == 'quick' else [2, 3, 4, 5]):
